@@ -86,9 +86,10 @@ SPEC = {
         "proved). Proved instead: C13_earclip_orientation_in_map (every CLIPPED ear passes the test in the result map; the last "
         "triangle's doubled area is the polygon's minus the ears') and C13_earclip_all_triangles_oriented_partial: under the "
         "decidable list condition LastOK all n-2 triangles of the result map pass the test. LastOK and EarsNotLast are evaluated by "
-        "this check's oracle (list_earclip) on every generated simple polygon in general position of the announced orientation and "
-        "reported as violations (last-ok-false / ears-not-last-false) if ever false; counts in "
-        "stats.earclip_list_conditions_on_simple_polygons",
+        "this check's oracle (list_earclip) on every generated simple polygon in general position of the announced orientation; "
+        "how often each held is counted in stats.earclip_list_conditions_on_simple_polygons (a false hypothesis marks an input the "
+        "theorem does not cover — never observed — and is not by itself a violation: the real output is judged by the oracle on "
+        "every input)",
         "the first side examined by the fan's star search is only sign-tested by the code: C13_fan_test_iff states exactly what is "
         "guaranteed, C13_fan_first_side_weak_witness shows a degenerate first triangle is accepted; the strict-orientation theorem "
         "C13_fan_apex_sees_all therefore carries 'no side collinear with the apex' as a hypothesis",
@@ -356,10 +357,9 @@ def judge(before, res, after, wfline, kern, fd, spares):
         le = list_earclip(P, kern == "earccw")
         key = "no-ear" if le is None else ("last_ok=%s ears_not_last=%s" % (le[3], le[2]))
         LIST_STATS[key] = LIST_STATS.get(key, 0) + 1
-        if le is not None and not le[3]:
-            items.append(("last-ok-false", f"LastOK is false on a simple polygon in general position: last triangle {le[1]}"))
-        if le is not None and not le[2]:
-            items.append(("ears-not-last-false", "EarsNotLast is false on a simple polygon in general position"))
+        # a false hypothesis means "this input is outside what the theorem covers", not "the code is wrong": it is counted
+        # (stats.earclip_list_conditions_on_simple_polygons, and a note when it ever happens); whether the REAL output is a
+        # correct triangulation is decided by the clauses below, on every input
     # ---- must-succeed clauses
     if res != "ok":
         if kern == "earccw" and o > 0 or kern == "earcw" and o < 0:
@@ -671,6 +671,9 @@ def run(tier, seed):
     res = hv.merge_results(parts)
     res["stats"]["by_family_kernel_outcome"] = {"/".join(k): v for k, v in sorted(STATS.items())}
     res["stats"]["earclip_list_conditions_on_simple_polygons"] = dict(sorted(LIST_STATS.items()))
+    uncovered = {k: v for k, v in LIST_STATS.items() if "False" in k}
+    if uncovered:
+        res.setdefault("notes", []).append(f"ear-clipping list hypotheses false on some simple polygons (inputs the C13c/e theorems do not cover): {uncovered}")
     res["violations"] = dedupe(res["violations"])
     return res
 
